@@ -588,6 +588,14 @@ def library_stream(seed):
     from vc2_conformance.bitstream.vc2_autofill import autofill_and_serialise_stream
     from bitarray import bitarray
 
+    if seed % 4 == 3:
+        # one sequence whose pictures differ in transform depths (symmetric / horizontal-only splits; encoder output
+        # spliced at byte level in harness/corpus.py): what the parser computes for one picture must not depend on
+        # the pictures parsed or serialised before it
+        from .. import corpus
+
+        mixed = [d for n, d in corpus.base_streams() if "_mixed_" in n]
+        return mixed[(seed // 4) % len(mixed)]
     rnd = random.Random(seed)
     hq = rnd.random() < 0.5
     sx, sy = rnd.choice([(1, 1), (2, 1), (2, 2)])
